@@ -52,6 +52,67 @@ def pp_obj(x, tab):
     raise ValueError(x)
 
 
+def rule(cmd, args):
+    """run one proof rule on BasicInterpreter; additionally on StatefulInterpreter and ProofExp (static check) and
+    report when they disagree with it"""
+    from proof_generation.basic_interpreter import BasicInterpreter
+    from proof_generation.stateful_interpreter import StatefulInterpreter
+    from proof_generation.interpreter import ExecutionPhase
+    from proof_generation.proved import Proved
+    from proof_generation.proof import ProofExp, ProofThunk
+
+    def attempt(f):
+        try:
+            return ('ok', f())
+        except AssertionError:
+            return ('raise', 'AssertionError')
+        except RecursionError:
+            raise
+        except Exception as e:   # noqa
+            return ('raise', type(e).__name__)
+
+    def thunk(p):
+        return ProofThunk(lambda interp: Proved(p), p)
+
+    b = BasicInterpreter(ExecutionPhase.Proof)
+    pe = ProofExp()
+    if cmd == 'rule-mp':
+        l, r = npat(args[0]), npat(args[1])
+        r1 = attempt(lambda: b.modus_ponens(Proved(l), Proved(r)).conclusion)
+
+        def st():
+            s = StatefulInterpreter(ExecutionPhase.Proof)
+            pl, pr = Proved(l), Proved(r)
+            s.stack = [pl, pr]
+            return s.modus_ponens(pl, pr).conclusion
+        r2 = attempt(st)
+        r3 = attempt(lambda: pe.modus_ponens(thunk(l), thunk(r)).conc)
+    elif cmd == 'rule-gen':
+        a, x = npat(args[0]), int(args[1])
+        r1 = attempt(lambda: b.exists_generalization(Proved(a), P.EVar(x)).conclusion)
+
+        def st():
+            s = StatefulInterpreter(ExecutionPhase.Proof)
+            pa = Proved(a)
+            s.stack = [pa]
+            return s.exists_generalization(pa, P.EVar(x)).conclusion
+        r2 = attempt(st)
+        # ProofExp.exists_generalization has no static side-condition check; run the thunk on a BasicInterpreter
+        r3 = attempt(lambda: pe.exists_generalization(thunk(a), P.EVar(x))(BasicInterpreter(ExecutionPhase.Proof)).conclusion)
+    else:
+        a, d = npat(args[0]), nmap(args[1])
+        r1 = attempt(lambda: b.instantiate(Proved(a), dict(d)).conclusion)
+        r2 = r1
+        r3 = attempt(lambda: pe.dynamic_inst(thunk(a), dict(d))(BasicInterpreter(ExecutionPhase.Proof)).conclusion)
+    def key(r):
+        return (r[0], full(r[1]) if r[0] == 'ok' else r[1])
+    if not (key(r1) == key(r2) == key(r3)):
+        return '(interpreters-disagree basic=%s stateful=%s proofexp=%s)' % (r1[0], r2[0], r3[0])
+    if r1[0] == 'raise':
+        return '(raise %s)' % r1[1]
+    return sx.pat_to_s(pyconv.from_py(r1[1], None, False))
+
+
 def out_subst(r):
     if r is None:
         return 'none'
@@ -158,6 +219,8 @@ def handle(cmd, args):
         if not (n(*r) == app):
             return '(false rebuilt-not-==)'
         return 'true'
+    if cmd in ('rule-mp', 'rule-gen', 'rule-inst'):
+        return rule(cmd, args)
     if cmd == 'pretty':
         from harness.py import notation_table
         tab = [n for _, n in notation_table.table()]
